@@ -180,11 +180,19 @@ def handle (ws : List String) : String :=
     | some n, some pos, some len =>
       if (n = 1 ∨ n = 16 ∨ n = 255 ∨ n = 256) ∧ len ≤ 600 then s!"{rbExt n pos len}|-" else "bad-op"
     | _, _, _ => "bad-op"
-  | ["adapter", chip, len, off, seed] =>
-    match chip.toNat?, len.toNat?, off.toNat?, seed.toNat? with
-    | some chip, some len, some off, some seed =>
-      if (chip = 126 ∨ chip = 127) ∧ len < 256 ∧ off < 256 then s!"{adapterModel chip len off seed}|{adapterSpec len off seed}" else "bad-op"
-    | _, _, _, _ => "bad-op"
+  | [kind, chip, len, off, seed] =>
+    -- `adapter`: LorawanRadio::rx_single; `adapterc`: LorawanRadio::rx_continuous (the Class C path).
+    -- Both fetch through the same driver call; the rest of the caller's buffer stays as it was.
+    if kind = "adapter" ∨ kind = "adapterc" then
+      match chip.toNat?, len.toNat?, off.toNat?, seed.toNat? with
+      | some chip, some len, some off, some seed =>
+        if (chip = 126 ∨ chip = 127) ∧ len < 256 ∧ off < 256 then
+          let m := adapterModel chip len off seed
+          let m := if m.startsWith "ok:" then m ++ " tail-ok" else m
+          s!"{m}|{adapterSpec len off seed} tail-ok"
+        else "bad-op"
+      | _, _, _, _ => "bad-op"
+    else "bad-op"
   | _ => "bad-op"
 
 end Driver.C18
